@@ -134,6 +134,12 @@ def binop(I, op, a, b):
         return peg.binop(op.__class__.__name__, a, b)
     if isinstance(op, ast.BitOr) and isinstance(a, dict) and isinstance(b, dict):
         return {**a, **b}
+    if isinstance(op, (ast.BitOr, ast.BitAnd, ast.BitXor, ast.LShift, ast.RShift)) and not isinstance(a, bool) and not isinstance(b, bool) \
+            and isinstance(a, (int, sp.Integer)) and isinstance(b, (int, sp.Integer)):
+        # integer flag arithmetic (re.MULTILINE | re.VERBOSE ...)
+        import operator as _op
+        fn = {ast.BitOr: _op.or_, ast.BitAnd: _op.and_, ast.BitXor: _op.xor, ast.LShift: _op.lshift, ast.RShift: _op.rshift}[type(op)]
+        return sp.Integer(fn(int(a), int(b)))
     if isinstance(op, ast.Div) and (isinstance(a, PathVal) or isinstance(b, PathVal)):
         import os.path as _osp
         x, y = (v.path if isinstance(v, PathVal) else v for v in (a, b))
